@@ -23,16 +23,74 @@ Definition par_goroutine_prog : list gact := [GRun; GRecover; GDone].   (* the b
 Definition par_options_handed_on : bool := true.   (* every run of a task is handed the call's tool options *)
 
 Section Gen.
-  (* what is not translated: the tool values, the tool options, executorMeta, the runnable packers and what running
-     one means, convTools, and the semantics of parallelRunToolCall (Model/ToolsPar.v) *)
+  (* what is not translated: the tool values (their Info, which run interfaces they implement, their run methods), the
+     tool options, executorMeta, the runnable packers and what running one means, and the semantics of
+     parallelRunToolCall (Model/ToolsPar.v) *)
   Variables BT TOPT META RP : Type.
   Variable executorMeta_opaque : META.
-  Variable newRunnablePacker : (CTX -> string -> list TOPT -> tres) -> option unit -> option unit -> option unit -> bool -> option RP.
+  Variable newRunnablePacker : option (CTX -> string -> list TOPT -> tres) -> option (CTX -> string -> list TOPT -> sres) ->
+                               option unit -> option unit -> bool -> option RP.
+  Variable BT_Info : BT -> CTX -> res ToolInfo.
+  Variables assert_StreamableTool assert_InvokableTool : BT -> option BT.
+  Variable BT_StreamableRun : option BT -> option (CTX -> string -> list TOPT -> sres).
+  Variable BT_InvokableRun : option BT -> option (CTX -> string -> list TOPT -> tres).
+  Variable parseExecutorInfoFromComponent : unit -> option BT -> option META.
+  Variable executorMeta_isComponentCallbackEnabled : option META -> bool.
   Variable RP_Invoke : option RP -> CTX -> string -> list TOPT -> res (string * option N).
   Variable RP_Stream : option RP -> CTX -> string -> list TOPT -> res (option SR * option N).
-  Variable convTools : CTX -> option (list BT) -> res (toolsTuple META RP).
   Variable parallelRunToolCall : CTX -> (CTX -> toolCallTask META RP -> list TOPT -> res (toolCallTask META RP)) ->
                                  list (toolCallTask META RP) -> list TOPT -> res (list (toolCallTask META RP)).
+
+  Definition convTools (ctx : CTX) (tools : list BT) : res (toolsTuple META RP) :=
+    do x1 <- sl_make None (sl_len tools);
+    do x2 <- sl_make None (sl_len tools);
+    let ret := (set_toolsTuple_rps (set_toolsTuple_meta (set_toolsTuple_indexes zero_toolsTuple map_empty) x1) x2) in
+    do ret <- for_up 0%Z (sl_len tools) (fun idx ret =>
+      do bt <- sl_get tools idx;
+      do tl <- BT_Info bt ctx;
+      let toolName := (ToolInfo_Name tl) in
+      let st : option BT := None in
+      let it : option BT := None in
+      let invokable : option (CTX -> string -> list TOPT -> tres) := None in
+      let streamable : option (CTX -> string -> list TOPT -> sres) := None in
+      let ok : bool := false in
+      let meta : option META := None in
+      let st := (assert_StreamableTool bt) in
+      let ok := (negb (is_nil st)) in
+      do streamable <- (if ok then
+        let streamable := (BT_StreamableRun st) in
+        Ok streamable
+      else
+        Ok streamable);
+      let it := (assert_InvokableTool bt) in
+      let ok := (negb (is_nil it)) in
+      do invokable <- (if ok then
+        let invokable := (BT_InvokableRun it) in
+        Ok invokable
+      else
+        Ok invokable);
+      if ((is_nil st) && (is_nil it)) then
+      Err (e_at "convTools"%string 0%nat)
+    else
+      do meta <- (if (negb (is_nil st)) then
+        let meta := (parseExecutorInfoFromComponent components_ComponentOfTool st) in
+        Ok meta
+      else
+        let meta := (parseExecutorInfoFromComponent components_ComponentOfTool it) in
+        Ok meta);
+      let ret := (set_toolsTuple_indexes ret (map_set (toolsTuple_indexes ret) toolName idx)) in
+      do x3 <- sl_set (toolsTuple_meta ret) idx meta;
+      let ret := (set_toolsTuple_meta ret x3) in
+      do x4 <- sl_set (toolsTuple_rps ret) idx (newRunnablePacker invokable streamable None None (negb (executorMeta_isComponentCallbackEnabled meta)));
+      let ret := (set_toolsTuple_rps ret x4) in
+      Ok ret) ret;
+    Ok ret
+  .
+
+  Definition NewToolNode (ctx : CTX) (conf : ToolsNodeConfig BT) : res (ToolsNode META RP) :=
+    do tuple <- convTools ctx (ToolsNodeConfig_Tools conf);
+    Ok (set_ToolsNode_unknownToolHandler (set_ToolsNode_tuple zero_ToolsNode tuple) (ToolsNodeConfig_UnknownToolsHandler conf))
+  .
 
   Definition getToolsNodeOptions (opts : list (toolsNodeOptions BT TOPT -> toolsNodeOptions BT TOPT)) : toolsNodeOptions BT TOPT :=
     let o := (set_toolsNodeOptions_ToolOptions zero_toolsNodeOptions []) in
@@ -55,8 +113,8 @@ Section Gen.
   .
 
   Definition newUnknownToolTask (name arg callID : string) (unknownToolHandler : option (CTX -> string -> string -> tres)) : toolCallTask META RP :=
-    (set_toolCallTask_callID (set_toolCallTask_arg (set_toolCallTask_name (set_toolCallTask_meta (set_toolCallTask_r zero_toolCallTask (newRunnablePacker (fun ctx input opts =>
-                  (call_func3 unknownToolHandler ctx name input)) None None None false)) (Some executorMeta_opaque)) name) arg) callID)
+    (set_toolCallTask_callID (set_toolCallTask_arg (set_toolCallTask_name (set_toolCallTask_meta (set_toolCallTask_r zero_toolCallTask (newRunnablePacker (Some (fun ctx input opts =>
+                    (call_func3 unknownToolHandler ctx name input))) None None None true)) (Some executorMeta_opaque)) name) arg) callID)
   .
 
   Definition genToolCallTasks (tn : ToolsNode META RP) (tuple : toolsTuple META RP) (input : Message) : res (list (toolCallTask META RP)) :=
@@ -114,7 +172,7 @@ Section Gen.
     let opt := (getToolsNodeOptions opts) in
     let tuple := (ToolsNode_tuple tn) in
     do tuple <- (if (negb (is_nil (toolsNodeOptions_ToolList opt))) then
-      do tuple <- convTools ctx (toolsNodeOptions_ToolList opt);
+      do tuple <- convTools ctx (slice_of (toolsNodeOptions_ToolList opt));
       Ok tuple
     else
       Ok tuple);
@@ -140,7 +198,7 @@ Section Gen.
     let opt := (getToolsNodeOptions opts) in
     let tuple := (ToolsNode_tuple tn) in
     do tuple <- (if (negb (is_nil (toolsNodeOptions_ToolList opt))) then
-      do tuple <- convTools ctx (toolsNodeOptions_ToolList opt);
+      do tuple <- convTools ctx (slice_of (toolsNodeOptions_ToolList opt));
       Ok tuple
     else
       Ok tuple);
